@@ -17,7 +17,13 @@ c05 = importlib.import_module("c05")
 c08 = importlib.import_module("c08")
 first, n = int(sys.argv[1]), int(sys.argv[2])
 nw = int(sys.argv[3]) if len(sys.argv) > 3 else 160
-core.make(["Model/Sim.vo", "Model/SimQ.vo", "Model/NextSched.vo"])
+_c = core.Ctx("soak", "quick", 0)
+_c.translate(["Task", "Event", "Time"])
+with core.BuildLock():
+    ok, log = core.make(["Model/Sim.vo", "Model/SimQ.vo", "Model/NextSched.vo"])
+if not ok:
+    print(log[-2000:])
+    sys.exit(2)
 total_bad = 0
 for seed in range(first, first + n):
     ctx = core.Ctx("soak%d" % seed, "quick", seed)
